@@ -444,7 +444,7 @@ CLAIMS = [
           "the hand-written Drop of span information takes the cdr slot out of every list node (the dropped node itself, whatever "
           "its span, and each further one in its loop) before the node reaches the recursive drop glue, and stops only at a "
           "non-list node",
-          "arbitrary node kinds; any chain length (loop cut)", configs=("fast",)),
+          "arbitrary node kinds; any chain length (loop cut)", configs=("fast",), also=("C03",)),
     Claim("c16_ignored_any_shallow", "C16", "quick", claim_ignored_any,
           "deserialize_ignored_any (unknown struct fields) answers with visit_unit and never forwards to a walking method",
           "arbitrary value", configs=("fast",), crate="serde-lexpr"),
